@@ -207,6 +207,18 @@ CHECKS["C04"] = (
     "Sigmoid..Logit pair families excluded (declared eps clamp cannot round-trip freely drawn noise).",
     "DESIGN.md section 3 C04")
 
+CHECKS["C05"] = (
+    "exact-summation / quadrature / Gauss-Legendre / importance-sampling monitors of exp(log_prob) for every density-returning object, "
+    "Kolmogorov-Smirnov and z-test monitors of its samples against CDFs derived from its OWN log_prob, and expectation monitors for mean()",
+    "Bernoulli: exact sum over {0,1}^D; Standard / Diagonal / ConditionalDiagonal normal and MADEMoG: quadrature for 1-2 event dimensions, "
+    "self-normalised importance sampling for 3-6; BoxUniform / MG1Uniform: density x support volume; LotkaVolterraOscillating: 4-D "
+    "tensor Gauss-Legendre; gaussian_kde_log_eval over the query space; 2e5 samples per object against coordinate-conditional or grid-"
+    "marginal CDFs at alpha 1e-9 (narrow mixture components included in 1-D); mean() type, shape and value against the expectation "
+    "computed from log_prob.",
+    "Integral accuracy 1e-4 (1-D) / 2e-3 (2-D) / 1e-3 (4-D) / 6 Monte-Carlo sigma (>2-D); grids are placed from sample quantiles "
+    "(placement only).",
+    "DESIGN.md section 3 C05")
+
 PENDING_REASON = "check not built yet in this session (planned, see DESIGN.md section 3); not claimed until it exists and is calibrated"
 
 
